@@ -10,6 +10,7 @@
 #ifndef C31_COMMON_H
 #define C31_COMMON_H
 #include "verif.h"
+#define VERIF_RG_POST_STEP   /* environment also acts after each of my atomic operations */
 #include "verif_rg.h"
 #include <stddef.h>
 #include <stdint.h>
